@@ -16,6 +16,9 @@ type modSet struct {
 	heaps map[string]string // heap name -> sort
 	all   bool
 	alloc bool
+	// bigFresh: big.Int objects are only created and initialised in the loop (every math/big call has a fresh
+	// object as receiver root); objects that existed when the loop was entered keep their values
+	bigFresh bool
 	// via[h] lists the local variables through which heap h is written; whole[h] is set when some write to h
 	// goes through anything else. A heap written only through loop-invariant locals keeps all other objects.
 	via   map[string][]types.Object
@@ -395,7 +398,11 @@ func (fr *Frame) modCall(call *ast.CallExpr, ms *modSet, info *types.Info, visit
 		ms.alloc = true
 		// big.Int methods mutate their receiver
 		if callee.Pkg() != nil && callee.Pkg().Path() == "math/big" {
-			ms.touch("H:big", "(Array Int Int)")
+			if bigReceiverFresh(call, info) {
+				ms.bigFresh = true
+			} else {
+				ms.touch("H:big", "(Array Int Int)")
+			}
 		}
 		return
 	}
@@ -457,6 +464,9 @@ func (fr *Frame) havocMod(s *State, ms *modSet) {
 			names = append(names, k)
 		}
 		sort.Strings(names)
+		if _, touched := ms.heaps["H:big"]; ms.bigFresh && !touched {
+			fr.extendHeaps(s, map[string]string{"H:big": "(Array Int Int)"}, s.next)
+		}
 		for _, k := range names {
 			if !ms.whole[k] && len(ms.fields[k]) > 0 && len(ms.via[k]) == 0 {
 				// only fields of loop-invariant local pointers are written: everything else keeps its value
@@ -1125,4 +1135,52 @@ func (fr *Frame) fieldFuncHeaps(f *ast.SelectorExpr, info *types.Info) (map[stri
 		}
 	}
 	return out, true
+}
+
+// bigReceiverFresh: the receiver of this math/big method call is, at the root of its call chain, a freshly
+// allocated object: new(big.Int), big.NewInt(..), or a chain of math/big methods on one of those (they return
+// their receiver). Package-level functions of math/big (NewInt) allocate.
+func bigReceiverFresh(call *ast.CallExpr, info *types.Info) bool {
+	sel, ok := ast.Unparen(call.Fun).(*ast.SelectorExpr)
+	if !ok {
+		return false
+	}
+	if _, isSel := info.Selections[sel]; !isSel {
+		// package-level function such as big.NewInt
+		return true
+	}
+	x := ast.Unparen(sel.X)
+	for {
+		c, ok := x.(*ast.CallExpr)
+		if !ok {
+			return false
+		}
+		if id, ok := ast.Unparen(c.Fun).(*ast.Ident); ok {
+			if b, ok := info.Uses[id].(*types.Builtin); ok && b.Name() == "new" {
+				return true
+			}
+			return false
+		}
+		s2, ok := ast.Unparen(c.Fun).(*ast.SelectorExpr)
+		if !ok {
+			return false
+		}
+		if sl, isSel := info.Selections[s2]; isSel {
+			fn, ok := sl.Obj().(*types.Func)
+			if !ok || fn.Pkg() == nil || fn.Pkg().Path() != "math/big" {
+				return false
+			}
+			// methods that return a different object than their receiver are not chains
+			switch fn.Name() {
+			case "Cmp", "Sign", "String", "Bytes", "Uint64", "Int64", "IsUint64", "IsInt64", "BitLen", "Text":
+				return false
+			}
+			x = ast.Unparen(s2.X)
+			continue
+		}
+		if fn, ok := info.Uses[s2.Sel].(*types.Func); ok && fn.Pkg() != nil && fn.Pkg().Path() == "math/big" {
+			return true // big.NewInt(...)
+		}
+		return false
+	}
 }
